@@ -240,6 +240,9 @@ func (ev *evaluator) ident(name string) *Val {
 		return &Val{}
 	case "result":
 		if ev.fr.results == nil {
+			if v := ev.local(name); v != nil {
+				return v
+			}
 			ev.errorf("result used outside ensures")
 		}
 		if ev.fr.results.Tuple != nil {
